@@ -35,6 +35,9 @@ pub enum DataVerifierError {
     #[error("peer_id doens't match any available public key: {0:?}")]
     PeerIdNotFound(String),
 
+    #[error("the trace refers to CID {0:?} that is absent from the CID store")]
+    CidNotFound(Rc<CidRef>),
+
     #[error("signature mismatch for {peer_id:?}: {error:?}, values: CIDS: {cids:?}")]
     SignatureMismatch {
         error: Box<VerificationError>,
